@@ -19,6 +19,10 @@ SPEC = {
                    "create-then-read race, the scripted 'lateunlock' scenario (three runs, two or three weeks to upload: "
                    "run A's first request fails and A is parked before its second, run B locks the first week and is "
                    "parked before its request, A runs to its END, run C runs completely, then B's request goes out), "
+                   "the scripted 'oldlock' scenario (run A holds a week's lock and is parked before its request, more than a "
+                   "day passes - every lock file of upload/ is back-dated by 25-72 h -, run B runs completely, then A's "
+                   "request goes out), stale locks of dead uploaders with mtimes 2-72 h old (file ages are part of the "
+                   "state), "
                    "and 'eventual' scenarios (no kills, then one further complete run answered "
                    "200); every run is what the exported Run does with its uploader: Run, then the deferred Close; thorough tier adds the sweep: kill uploader 1 after call k = 1..26 x every request answered "
                    "200 / 404 / 503 / not at all, then uploader 2 runs. After every step local/, upload/ (names, content classes, canonical report sums) and the "
